@@ -47,7 +47,7 @@ def make_plan(run_seed: int, profile: Dict[str, Any]) -> Dict[str, Any]:
     if focus in ("C12", "both"):
         kinds += ["expand_plain", "expand_cov", "mutate", "mutate"]
     if focus in ("C14", "both"):
-        kinds += ["fixed_length", "fixed_length", "count"]
+        kinds += ["fixed_length", "fixed_length", "count", "numeric_value"]
     cases = []
     for _ in range(profile.get("cases", 24)):
         cases.append(
@@ -144,7 +144,7 @@ def check_expansion(before: MNode, after: MNode, grammar) -> Optional[str]:
     return ce(before, after, grammar)
 
 
-def run_case(case, g, graph, counters) -> Optional[Dict[str, Any]]:
+def run_case(case, g, graph, counters, state=None) -> Optional[Dict[str, Any]]:
     """Returns a violation dict or None."""
     from isla.fuzzer import GrammarCoverageFuzzer, GrammarFuzzer
     from isla.helpers import canonical
@@ -235,6 +235,58 @@ def run_case(case, g, graph, counters) -> Optional[Dict[str, Any]]:
         counters["fixed_length_built"] = counters.get("fixed_length_built", 0) + 1
         return None
 
+    if kind == "numeric_value":
+        # numeric model value parsing (solver.py: extract_model_value_int_var): the tree
+        # ISLa builds for an integer that Z3 chose for a numeric nonterminal.  One solver
+        # object per grammar of the run; the second one is, half of the time, a copy of the
+        # first made by copy_without_queue(grammar=...), i.e. the two share what copies share.
+        import z3
+        from isla import language
+        from isla.solver import ISLaSolver
+        from isla.z3_helpers import z3_eq
+        from oracles.targets import judge_numeric
+        from returns.maybe import Some
+        from sim.seams import EventLog as _EL, Z3Seam
+
+        can = og.canonical(g)
+        r = og.reach(g)
+
+        def numeric(nt):
+            terms = [t for m in [nt] + sorted(r.get(nt, ())) for alt in can[m] for t in alt if not is_nt(t)]
+            return nt != "<start>" and any(c.isdigit() for t in terms for c in t) and all(c in "0123456789+-" for t in terms for c in t)
+
+        cands = [nt for nt in nts if numeric(nt)]
+        if not cands or state is None:
+            return None
+        nt = rng.choice(cands)
+        gi = state["gi"]
+        seam = Z3Seam(_EL(), None, faults=[])
+        undo_z3 = seam.install()
+        try:
+            if gi not in state["solvers"]:
+                others = [k for k in state["solvers"]]
+                if others and rng.random() < 0.5:
+                    state["solvers"][gi] = state["solvers"][others[0]].copy_without_queue(grammar=Some(g))
+                    counters["numeric_value_derived_solver"] = counters.get("numeric_value_derived_solver", 0) + 1
+                else:
+                    state["solvers"][gi] = ISLaSolver(g)
+            solver = state["solvers"][gi]
+            value = rng.choice([0, 1, 2, 5, 7, 9, 10, 17, 42, 99, 100, 255, 1000, -1, -7, -42])
+            var = language.Variable("i", nt)
+            zi = z3.Int("i_0")
+            zs = z3.Solver()
+            zs.add(z3_eq(zi, z3.IntVal(value)))  # (isla redefines == on Z3 terms as structural equality)
+            if zs.check() != z3.sat:
+                return None
+            tree = solver.extract_model_value(var, zs.model(), {var: zi}, set(), {var})
+        finally:
+            undo_z3()
+        counters["numeric_value_built"] = counters.get("numeric_value_built", 0) + 1
+        problem = judge_numeric(g, nt, value, to_model(tree))
+        if problem:
+            return viol("C14", "numeric_value", f"extract_model_value({nt}, {value}) -> {str(tree)!r}: {problem}")
+        return None
+
     if kind == "count":
         from isla.derivation_tree import DerivationTree
         from isla.isla_predicates import COUNT_PREDICATE
@@ -303,6 +355,7 @@ def execute(plan: Dict[str, Any]) -> Dict[str, Any]:
     h = hashlib.sha256()
     grammars = plan.get("grammars") or [g]
     graphs = [gg.GrammarGraph.from_grammar(x) for x in grammars]
+    solvers: Dict[int, Any] = {}  # numeric_value cases: one ISLaSolver per grammar, possibly derived from another
     work = WorkCounter(cap=None)
     draws = 0
     with Quiet():
@@ -315,7 +368,7 @@ def execute(plan: Dict[str, Any]) -> Dict[str, Any]:
                 work.extend(plan.get("case_work", 600_000))
                 try:
                     gi = case.get("g", 0) % len(grammars)
-                    v = run_case(case, grammars[gi], graphs[gi], counters)
+                    v = run_case(case, grammars[gi], graphs[gi], counters, {"solvers": solvers, "grammars": grammars, "gi": gi})
                     if work.tripped:
                         record["inconclusive"].append(f"case_work_cap:{case['kind']}")
                         v = None
@@ -334,6 +387,10 @@ def execute(plan: Dict[str, Any]) -> Dict[str, Any]:
                     else:
                         sig = exception_signature(exc)
                         prop = "C12" if case["kind"] in ("expand_plain", "expand_cov", "mutate") else "C14"
+                        if case["kind"] == "numeric_value" and sig["type"] == "RuntimeError" and "Could not parse a numeric solution" in sig["raw"]:
+                            # "no tree for this value": not judged by C14 (it is C02's known finding)
+                            counters["numeric_value_none"] = counters.get("numeric_value_none", 0) + 1
+                            continue
                         record["violations"].append(
                             {"property": prop, "clause": f"{case['kind']}_raises", "op_index": idx, "case": case, "signature": sig,
                              "features": grammar_features(grammars[case.get("g", 0) % len(grammars)]),
